@@ -6,11 +6,13 @@ import re
 
 import verif
 
-RULE = ("cases = (command wiring translated from command/*.go, link mode, random scan range: subnet /1../32 or none, "
+RULE = ("accepted frames are cut to the length the compiled program returns (the snapshot length, as the kernel does) and "
+        "delivered in fresh buffers or through a ring of 1-3 reused buffers; "
+        "cases = (command wiring translated from command/*.go, link mode, random scan range: subnet /1../32 or none, "
         "0-5 or 200 port ranges); per case the REAL filter builder's text is compiled by the real libpcap and run in the "
         "x/net/bpf VM on frames built relative to the range (valid replies; source just inside/outside the net; ports at "
         "range edges and just outside; every flag pattern incl. single-bit flips and NS; IP options; TCP options; payload; "
-        "padding; every ICMP type near 8; fragments; other protocols; IPv6 with and without fragment header; IP-in-IP; "
+        "padding; IP and TCP option blocks swept over 0..40 bytes each; payloads up to the MTU; every ICMP type near 8; fragments; other protocols; IPv6 with and without fragment header; IP-in-IP; "
         "VLAN; truncations; malformed options); accepted frames go through the REAL ProcessPacketData; evaluations = "
         "frames; non-trivial = well-formed unfragmented frame (the property's domain); distinct by (command, link, range, frame)")
 
@@ -70,6 +72,8 @@ def wf_and_shape(cls, raw, subnet, ports, f):
             return True
         net, bits = subnet
         return (a >> (32 - bits)) == (net >> (32 - bits))
+    if len(f) >= 65536:
+        return False, False, None
     if raw:
         p = f
         ipv4 = True
@@ -161,10 +165,10 @@ def read_wirings(ctx):
 def case_term(c):
     z = verif.coq_z
     sub = "Some (%s, %s)" % (z(c["net"]), z(c["bits"])) if c["subnet"] else "None"
-    return ("{| k_filter := %d; k_raw := %s; k_subnet := %s; k_ports := [%s]; k_text := %s; k_frames := [%s]; "
+    return ("{| k_filter := %d; k_raw := %s; k_subnet := %s; k_ports := [%s]; k_text := %s; k_snap := %s; k_frames := [%s]; "
             "k_verdicts := [%s] |}") % (
         c["filter"], verif.coq_bool(c["raw_source"]), sub, ";".join("(%d,%d)" % tuple(p) for p in c["ports"]),
-        verif.coq_packed(c["text"].encode()), ";".join(verif.coq_packed(bytes.fromhex(f["frame"])) for f in c["frames"]),
+        verif.coq_packed(c["text"].encode()), z(c["snap"]), ";".join(verif.coq_packed(bytes.fromhex(f["frame"])) for f in c["frames"]),
         ";".join(verif.coq_bool(f["vm"]) for f in c["frames"]))
 
 
@@ -204,8 +208,13 @@ def report(ctx, case, fo, why, seen):
     seen[key] = 1
     if len(ctx.findings) >= 12:
         return
-    inp = {"w": case["w"], "cmd": case["cmd"], "vpn": case["vpn"], "subnet": case["subnet"], "ports": case["ports"],
-           "frames": [fo["frame"]]}
+    frames = [fo["frame"]]
+    if key.startswith("unfaithful") and case.get("ring"):
+        # a record that depends on an earlier frame in a reused buffer: replay the whole prefix
+        k = [x["frame"] for x in case["frames"]].index(fo["frame"])
+        frames = [x["frame"] for x in case["frames"][:k + 1]]
+    inp = {"w": case["w"], "cmd": case["cmd"], "vpn": case["vpn"], "ring": case.get("ring", 0) if len(frames) > 1 else 0,
+           "subnet": case["subnet"], "ports": case["ports"], "frames": frames}
     path = ctx.write_replay(re.sub(r"\W+", "-", key), {
         "property": "C03", "what": reason, "input": inp, "filter_text": case["text"], "observed": fo,
         "replay_cmd": "bin/check C03 --replay <this file>"})
@@ -289,6 +298,9 @@ def run(ctx):
                 if nbad > 5:
                     continue
                 c = part[idx]
+                if 3 in codes:
+                    ctx.broken.append(("correspondence: snapshot length %d returned by the filter builder of %s differs from the "
+                                       "translated constant" % (c["snap"], c["cmd"]), ""))
                 if 1 in codes:
                     ctx.broken.append(("correspondence: filter text of %s differs from the model for subnet=%r ports=%s" % (
                         c["cmd"], c["subnet"], c["ports"][:4]), c["text"][:400]))
